@@ -1157,6 +1157,10 @@ def _bad_heads():
         ("http2", "r505", b"GET @URL@ HTTP/2.0\r\nHost: x\r\n\r\n"),
         ("http2-body", "r505", b"POST @URL@ HTTP/2.0\r\nHost: x\r\nContent-Length: 4\r\n\r\nabcd"),
         ("http3", "r505", b"GET @URL@ HTTP/3.0\r\nHost: x\r\n\r\n"),
+        # (what a request that is refused for its version says about the connection does not count: the connection stays usable)
+        ("http2-close", "r505", b"GET @URL@ HTTP/2.0\r\nHost: x\r\nConnection: close\r\n\r\n"),
+        ("http3-upgrade", "r505", b"GET @URL@ HTTP/3.0\r\nConnection: keep-alive, Upgrade\r\nUpgrade: x\r\n\r\n"),
+        ("http2-close-body", "r505", b"POST @URL@ HTTP/2.0\r\nConnection: Close\r\nContent-Length: 3\r\n\r\nabc"),
     ]
 
 def fam_c10(tier, seed):
@@ -1221,7 +1225,8 @@ def fam_c16(tier, seed):
         heads.append(("cl-" + tag, "POST @URL@ HTTP/1.1\r\nHost: x\r\nContent-Length: %s\r\n\r\n" % val, "bad-content-length"))
     # an invalid Content-Length next to a valid one (either order), or next to Transfer-Encoding (either order): whichever
     # header this server frames the body with, another parser may pick the other one
-    for tag, val in (("plus", "+5"), ("alpha", "abc"), ("list", "5, 5"), ("empty", ""), ("overflow", "9" * 25), ("digits-alpha", "5x")):
+    for tag, val in (("plus", "+5"), ("alpha", "abc"), ("list", "5, 5"), ("empty", ""), ("overflow", "9" * 25), ("digits-alpha", "5x"),
+                     ("overflow-20-digits", "99999999999999999999"), ("overflow-by-one", "18446744073709551616")):
         heads.append(("cl-%s-then-valid" % tag, "POST @URL@ HTTP/1.1\r\nHost: x\r\nContent-Length: %s\r\nContent-Length: 5\r\n\r\n" % val, "bad-content-length"))
         heads.append(("cl-valid-then-%s" % tag, "POST @URL@ HTTP/1.1\r\nHost: x\r\nContent-Length: 5\r\ncontent-length: %s\r\n\r\n" % val, "bad-content-length"))
         heads.append(("cl-%s-then-te" % tag, "POST @URL@ HTTP/1.1\r\nHost: x\r\nContent-Length: %s\r\nTransfer-Encoding: chunked\r\n\r\n" % val, "bad-content-length"))
@@ -1267,7 +1272,9 @@ def fam_c16(tier, seed):
                 lines.append(("X-Other-%d" % i, "5x"))
             else:
                 c = h.split(":")[1]
-                lines.append((clnames[i], "5" if c == "valid" else badval[c]))
+                # (beyond usize::MAX in several shapes: 25 digits, exactly 20 digits, 2^64, 2^64 with leading zeros)
+                oval = ["9" * 25, "99999999999999999999", "18446744073709551616", "000018446744073709551616"][(i + len(rec["hs"])) % 4]
+                lines.append((clnames[i], "5" if c == "valid" else (oval if c == "overflow" else badval[c])))
         tag = "+".join(rec["hs"])
         if rec["cls"] == "r400":
             gver = "1.1"
